@@ -171,7 +171,7 @@ func c11body(c c11cfg) func(x *vsched.Exec) {
 func TestVerif_C11(t *testing.T) {
 	vrun.Main(t, "C11", func(r *vrun.Run) {
 		r.Rule = "every key batch of length <=3 (thorough <=4) over keys {a,b,c} incl. duplicates x every assignment of a pre-state {already cached, miss, in flight from a parked concurrent call whose reply is withheld} to the keys x API {DoMultiCache, DoCache(MGET), MGetCache helper} x {1 connection, 2 multiplexed connections} x {lru, adapter store}; one deterministic execution each; oracle: position i / map entry k holds the value of key i / k; non-trivial = batch mixing at least two pre-states"
-		maxLen := vrun.Pick(r, 3, 4)
+		maxLen := vrun.Pick(r, 3, 5)
 		keys := []string{"a", "b", "c"}
 		var batches [][]string
 		var gen func(cur []string)
